@@ -68,13 +68,16 @@ var statusCmd = &cobra.Command{
 		}
 
 		// compare index with HEAD commit
-		treeObj, err := object.GetObject(client.RootGoitPath, client.Head.Commit.Tree)
-		if err != nil {
-			return fmt.Errorf("fail to get tree object: %w", err)
-		}
-		tree, err := object.NewTree(client.RootGoitPath, treeObj)
-		if err != nil {
-			return fmt.Errorf("fail to get tree: %w", err)
+		tree := &object.Tree{} // if there is no commit yet, compare index with the empty tree
+		if client.Head.Commit != nil {
+			treeObj, err := object.GetObject(client.RootGoitPath, client.Head.Commit.Tree)
+			if err != nil {
+				return fmt.Errorf("fail to get tree object: %w", err)
+			}
+			tree, err = object.NewTree(client.RootGoitPath, treeObj)
+			if err != nil {
+				return fmt.Errorf("fail to get tree: %w", err)
+			}
 		}
 		diffEntries, err := client.Idx.DiffWithTree(tree)
 		if err != nil {
